@@ -99,21 +99,22 @@ def eval_call(I: Interp, node: ast.Call, fr: Frame):
             a0 = node.args[0]
             if isinstance(a0, ast.Subscript) and isinstance(a0.slice, ast.Slice):
                 base = I.to_sv(I.ev(a0.value, fr))
-                return SV(I.slice_seqid(base, a0.slice, fr), T.ANY)
+                return SV(I.slice_seqid(base, a0.slice, fr), T.EXT("ghost"))
             v = I.to_sv(I.ev(a0, fr))
             # content identity of a container; non-references stand for themselves; an empty dict literal is EMPTY
-            return SV(z3.If(smt.is_ref(v.t), z3.Select(st.arr("f:$seq"), smt.rid(v.t)), v.t), T.ANY)
+            return SV(z3.If(smt.is_ref(v.t), z3.Select(st.arr("f:$seq"), smt.rid(v.t)), v.t), T.EXT("ghost"))
         if n in REG.ufuns:
             nargs, ret = REG.ufuns[n]
             args = [I.to_sv(I.ev(a, fr)).t for a in node.args]
             if len(args) != nargs:
                 raise Refuse(f"ufun {n}: arity")
             F = z3.Function("uf_" + n, *([smt.Val] * nargs + [smt.Val]))
-            rty = {"bool": T.BOOL, "int": T.INT, "str": T.STR}.get(ret, T.ANY)
+            rty = {"bool": T.BOOL, "int": T.INT, "str": T.STR}.get(ret, T.EXT("ghost"))
             res = SV(F(*args), rty)
-            w = st.wt(rty, res.t)
-            if w is not None:
-                st.assume(w)
+            if rty.k != "ext":
+                w = st.wt(rty, res.t)
+                if w is not None:
+                    st.assume(w)
             return res
         if n == "plen":
             from .lib import plen_term
@@ -624,6 +625,9 @@ def apply_contract(I: Interp, con: Contract, finfo: FuncInfo, selfv, args, kwarg
         a2 = st.fresh("alloc", smt.I)  # the callee may allocate
         st.assume(a2 >= st.alloc)
         st.alloc = a2
+    for a_, k_ in st.pending_live:
+        st.assume_array_live(a_, k_, st.alloc)
+    st.pending_live = []
     rty = return_type(finfo)
     result = fresh_of_type(I, f"ret_{finfo.name}", rty)
     sf.locals["result"] = result
@@ -684,6 +688,7 @@ def havoc(I: Interp, modifies: Optional[List[str]], sf: Frame):
     st = I.st
     if modifies is None:
         modifies = ["heap"]
+    before = dict(st.heap)
     if [m for m in modifies if m.strip() != "alloc"]:
         e2 = st.fresh("epoch", smt.I)
         st.assume(e2 >= st.epoch)
@@ -694,6 +699,11 @@ def havoc(I: Interp, modifies: Optional[List[str]], sf: Frame):
         _havoc(I, modifies, sf)
     finally:
         st.epoch = saved_epoch
+    # whole arrays replaced by the havoc hold live references only (the bound is generous: the allocation watermark
+    # one step ahead, since a callee that allocates bumps it right after)
+    for k, a in st.heap.items():
+        if k in before and a is not before[k] and z3.is_const(a) and a.decl().kind() == z3.Z3_OP_UNINTERPRETED:
+            st.pending_live.append((a, k))
 
 
 def _havoc(I: Interp, modifies, sf: Frame):
